@@ -47,16 +47,25 @@ def gen(rng, tier, idx):
         big, big_shape = True, rng.choice([(65600, 2), (2, 65600)])
     m = {'seed': rng.randrange(2 ** 31), 'n_rows': rng.choice([1, 2, 3, 4, 6, 9, 19]) if not big else big_shape[0],
          'n_cols': rng.choice([1, 2, 3, 4, 7, 12]) if not big else big_shape[1],
-         'density': rng.choice([0.0, 0.05, 0.2, 0.5, 1.0]) if not big else 0.7,
+         'density': rng.choice([0.0, 0.05, 0.2, 0.5, 1.0]) if not big
+         else (rng.choice([0.05, 0.2, 0.7]) if max(big_shape) >= 240 else 0.7),
          'empty_rows': rng.random() < 0.4, 'empty_cols': rng.random() < 0.4,
          'dtype': rng.choice(['float64', 'float32', 'int32', 'uint16'])}
     if op in ('parallel', 'pivot') and m['n_cols'] < 2:
         m['n_cols'] = 3
+    narrow = op in ('parallel', 'serial', 'pivot') and rng.random() < 0.15
+    if narrow:
+        # more slices along one axis than stored entries, across the 2**8 boundary: the pointer array and the index
+        # array then want DIFFERENT minimal unsigned types
+        a_, b_ = rng.choice([(260, 4), (300, 11), (280, 5)])
+        if rng.random() < 0.5:
+            a_, b_ = b_, a_
+        m.update(n_rows=a_, n_cols=b_, density=rng.choice([0.03, 0.05, 0.1]), empty_rows=False, empty_cols=False)
     cfg = {'max_gb': rng.choice([1.0, 1e-4, 1e-9]), 'use_data': rng.random() < 0.65,
            'n_processors': rng.randint(1, 6), 'sel_seed': rng.randrange(2 ** 31),
            'slice': rng.choice(['none', 'full', 'sub', 'empty', 'single']),
            'compression': rng.random() < 0.5, 'dst_sparse': rng.random() < 0.6,
-           'max_elements': rng.choice([1, 3, 7, 100000]), 'uint_ok': rng.random() < 0.3,
+           'max_elements': rng.choice([1, 3, 7, 100000]), 'uint_ok': (rng.random() < 0.3) or narrow,
            'contiguous': rng.random() < 0.3,
            'dense_chunks': rng.choice([None, [1, 1], [4, 5], [3, 2], [1000, 1], [1, 1000]])}
     return {'op': op, 'mat': m, 'cfg': cfg, 'sched': common.draw_sched(rng), 'kcfg': common.draw_kernel_cfg(rng)}
